@@ -277,9 +277,7 @@ def run(ctx):
                 add(k, w, obj)
     ctx.cov["corpus_past_failures"] = len(past)
     # ---- corpus
-    paths = G.corpus_scripts()
-    if quick:
-        paths = ctx.rng.sample(paths, 250)
+    paths = G.stratified_corpus(260) if quick else G.corpus_scripts()      # quick: fixed stratified sample, independent of the seed
     n_parse = n_ok = n_assign = 0
     for p in paths:
         try:
@@ -351,8 +349,7 @@ def run(ctx):
     ctx.cov["generated_template_histogram"] = hist
     # ---- test-suite scripts with data
     n_suite = 8 if quick else 300
-    sp = G.corpus_scripts()
-    ctx.rng.shuffle(sp)
+    sp = G.stratified_corpus()          # fixed order (seed-independent)
     done = eq = 0
     for pth in sp:
         if done >= n_suite:
